@@ -33,6 +33,7 @@ SNAP = "--snap" in ARGS
 SB_ROOT = ARGS[ARGS.index("--sandbox") + 1] if "--sandbox" in ARGS else None
 
 SITES = {}   # (file, func, expr, consumer) -> [times a set was iterated, times anything was iterated]
+ENVSITES = {}  # (file, func, kind) -> times an environment-reading callable was called from there
 
 
 # ---------------------------------------------------------------------------------------------
@@ -54,6 +55,85 @@ def _c06_it(obj, site):
     if isinstance(obj, (set, frozenset)):
         rec[0] += 1
     return obj
+
+
+def _env_kind(f):
+    """kind of environment read performed by calling f, or None (identity of well-known stdlib callables)."""
+    import datetime as _dt
+    import locale as _lc
+    import pathlib as _pl
+    import random as _rd
+    import tempfile as _tf
+    import time as _tm
+    import uuid as _uu
+    try:
+        k = _ENV_BY_ID.get(id(f))
+        if k:
+            return k
+        fn = getattr(f, "__func__", None)
+        if fn is not None:
+            k = _ENV_BY_ID.get(id(fn))
+            if k:
+                return k
+        slf = getattr(f, "__self__", None)
+        nm = getattr(f, "__name__", "")
+        if slf is os.environ:
+            return "environ"
+        if slf is _dt.datetime and nm in ("now", "utcnow", "today"):
+            return "now"
+        if slf is _dt.date and nm == "today":
+            return "now"
+        if isinstance(slf, _rd.Random) or slf is _rd:
+            return "random"
+        if getattr(f, "__module__", None) in ("time",) and nm not in ("strftime", "strptime", "gmtime", "struct_time", "sleep"):
+            return "now"
+        if getattr(f, "__module__", None) in ("random", "secrets", "uuid") and not isinstance(f, type):
+            return "random"
+        if f is _uu.uuid1 or f is _uu.uuid4:
+            return "random"
+        if getattr(f, "__module__", None) == "locale" or f is _lc.getpreferredencoding:
+            return "locale"
+        if getattr(f, "__module__", None) == "tempfile" or f is _tf.mkstemp:
+            return "tmpname"
+    except Exception:
+        return None
+    return None
+
+
+def _build_env_table():
+    import glob as _gl
+    import pathlib as _pl
+    t = {id(os.getcwd): "cwd", id(os.getcwdb): "cwd", id(os.getenv): "environ", id(os.listdir): "dirlist", id(os.scandir): "dirlist",
+         id(os.walk): "dirlist", id(_gl.glob): "dirlist", id(_gl.iglob): "dirlist", id(os.getpid): "platform", id(os.urandom): "random",
+         id(id): "identity", id(hash): "hash", id(os.path.abspath): "cwd-resolve", id(os.path.realpath): "cwd-resolve",
+         id(os.path.relpath): "cwd-resolve", id(os.path.expanduser): "home", id(os.path.expandvars): "environ"}
+    P = _pl.Path
+    for nm, kind in (("cwd", "cwd"), ("home", "home"), ("expanduser", "home"), ("absolute", "cwd-resolve"), ("resolve", "cwd-resolve"),
+                     ("glob", "dirlist"), ("rglob", "dirlist"), ("iterdir", "dirlist"), ("walk", "dirlist")):
+        m = P.__dict__.get(nm) or getattr(P, nm, None)
+        if m is not None:
+            t[id(getattr(m, "__func__", m))] = kind
+            for base in P.__mro__:
+                mm = base.__dict__.get(nm)
+                if mm is not None:
+                    t[id(getattr(mm, "__func__", mm))] = kind
+    return t
+
+
+_ENV_BY_ID = _build_env_table()
+
+
+def _c06_fn(f, site):
+    k = _env_kind(f)
+    if k is not None and not (k == "dirlist" and site[2]):
+        key = (site[0], site[1], k)
+        ENVSITES[key] = ENVSITES.get(key, 0) + 1
+    return f
+
+
+_NOWRAP = {"super", "isinstance", "len", "getattr", "hasattr", "str", "int", "float", "bool", "list", "dict", "set", "tuple", "range",
+           "enumerate", "zip", "sorted", "min", "max", "any", "all", "print", "repr", "type", "iter", "next", "frozenset", "sum",
+           "ValueError", "TypeError", "KeyError", "Exception", "__c06_it__", "__c06_fn__", "locals", "globals", "vars", "dir"}
 
 
 class _Instr(ast.NodeTransformer):
@@ -108,12 +188,22 @@ class _Instr(ast.NodeTransformer):
         return n
 
     def visit_Call(self, n):
+        in_sorted = isinstance(n.func, ast.Name) and n.func.id == "sorted"
+        if in_sorted:
+            for a in n.args:
+                for x in ast.walk(a):
+                    x._c06_sorted = True
         self.generic_visit(n)
         f = n.func
-        if isinstance(f, ast.Name) and f.id in ("list", "tuple", "enumerate", "iter", "next", "zip", "str", "repr", "dict") and n.args:
+        if isinstance(f, ast.Name) and f.id in ("list", "tuple", "enumerate", "iter", "next", "zip", "str", "repr", "dict",
+                                                "sorted", "min", "max", "any", "all", "set", "frozenset", "sum") and n.args:
             n.args = [self.wrap(a, f.id) if not isinstance(a, ast.Starred) else a for a in n.args]
         elif isinstance(f, ast.Attribute) and f.attr in ("join", "extend") and len(n.args) == 1 and not isinstance(n.args[0], ast.Starred):
             n.args = [self.wrap(n.args[0], f.attr)]
+        # callee identity: is an environment-reading callable called from here?
+        if isinstance(f, ast.Attribute) or (isinstance(f, ast.Name) and f.id not in _NOWRAP):
+            site = (self.short, self.qual(), bool(getattr(n, "_c06_sorted", False)))
+            n.func = ast.copy_location(ast.Call(func=ast.Name(id="__c06_fn__", ctx=ast.Load()), args=[f, ast.Constant(value=site)], keywords=[]), f)
         return n
 
 
@@ -121,6 +211,7 @@ def install_instrumentation():
     import builtins
     import importlib.machinery
     builtins.__c06_it__ = _c06_it
+    builtins.__c06_fn__ = _c06_fn
 
     class Loader(importlib.machinery.SourceFileLoader):
         def source_to_code(self, data, path, *, _optimize=-1):
@@ -292,6 +383,17 @@ def api_call(fn, a):
             return {"grammar": GBNFCompiler().compile_schema(sd, include_envelope=bool(a.get("envelope", True))) if sd is not None else None}
         doc = parse(content)
         return {"grammar": compile_gbnf_from_meta(doc.meta)}
+    if fn == "hydrate":
+        from pathlib import Path
+        from octave_mcp import HydrationPolicy, VocabularyRegistry, hydrate
+        src_p, voc_p = Path(a["source"]), Path(a["vocab"])
+        reg = VocabularyRegistry.from_mappings({a.get("namespace", "@test/vocabulary"): voc_p})
+        pol = HydrationPolicy(prune_strategy=a.get("prune", "list"), collision_strategy=a.get("collision", "error"))
+        doc = hydrate(src_p, reg, pol, output_path=Path(a["output"]) if a.get("output") else None)
+        text = emit(doc)
+        # HYDRATION_TIME is a clock reading (allowed read A4 of the Lean policy): masked here, nothing else is
+        text = re.sub(r'(HYDRATION_TIME::)("[^"\n]*"|\S+)', r'\1"<masked>"', text)
+        return {"hydrated": text}
     if fn == "exports":
         return {"all": octave_mcp.list_exports(a.get("category"))}
     raise ValueError(f"unknown api scenario {fn}")
@@ -384,7 +486,8 @@ def main():
                     rep["changed"] = after_changed
                 out.write(json.dumps(rep) + "\n")
         elif cmd["cmd"] == "sites":
-            out.write(json.dumps({"sites": [[*k, v[0], v[1]] for k, v in sorted(SITES.items())]}) + "\n")
+            out.write(json.dumps({"sites": [[*k, v[0], v[1]] for k, v in sorted(SITES.items())],
+                                  "envsites": [[*k, v] for k, v in sorted(ENVSITES.items())]}) + "\n")
         elif cmd["cmd"] == "quit":
             break
         out.flush()
